@@ -38,12 +38,23 @@ import json, sys
 src, dst, pid, same, d0, d1, rc, vline, what = sys.argv[1:10]
 try: m = json.load(open(src))
 except Exception: m = {}
+import os
+prev = None
+if os.path.exists(dst):
+    try: prev = json.load(open(dst))
+    except Exception: prev = None
 out = {"property": pid, "summary": m.get("summary"), "needs": m.get("needs"),
        "confirmed": {"suite_same_pass_fail_set_as_baseline": same == "true", "demo_exit_unmodified": int(d0), "demo_exit_modified": int(d1)},
        "what_i_ran": ["scratch worktree of /repo HEAD + git apply patch.diff", "baseline suite command with PYTHONPATH=<scratch>/src: failing-test-id set compared with the unmodified tree",
                       "demo.py against both trees", "DATEUTIL_REPO=<scratch> ./check %s --tier quick from an isolated worktree of /verif" % pid],
        "check": {"exit": int(rc), "violation_line": vline, "first_failure": what,
                  "caught": int(rc) == 1, "with_failing_input": int(rc) == 1 and "no-failing-input-found" not in vline}}
+# keep the history: a seed missed (or caught only as no-failing-input-found) by an earlier version of the check stays recorded
+hist = (prev or {}).get("earlier_runs", [])
+if prev and prev.get("check") and (prev["check"].get("caught") != out["check"]["caught"] or prev["check"].get("with_failing_input") != out["check"]["with_failing_input"]):
+    hist = hist + [{"caught": prev["check"].get("caught"), "with_failing_input": prev["check"].get("with_failing_input"), "violation_line": prev["check"].get("violation_line")}]
+if hist:
+    out["earlier_runs"] = hist
 json.dump(out, open(dst, "w"), indent=1)
 print(json.dumps(out["confirmed"]), json.dumps(out["check"])[:600])
 PYEOF
